@@ -676,6 +676,33 @@ def r4_order_stats(ctx):
                 if hit and all(hit):
                     ok = True
             ctx.check(ok, f"order_stats('{letter}'): the early exit returns the point whose residual was just tested non-negative", q.node, repr(q.value))
+            if letter == "n":
+                # "smallest n meeting the confidence": a point returned without a root search is the answer only when nothing smaller is admissible -
+                # it is the least member of the domain (n >= r: r-th largest of n samples), or the residual one sample below was tested negative
+                least = same(v, R)
+                if not least and sigma:
+                    try:
+                        gb = g.subs({xn: inv.subs({_name(unknown_sym): v - 1})})
+                    except Unsupported:
+                        gb = None
+                    for val, tv, _node in q.decisions:
+                        if gb is None or not rat(tv):
+                            continue
+                        alts = literals(tv, val)
+                        hit = []
+                        for alt in alts:
+                            h = False
+                            for lit in alt:
+                                if lit[0] != "rel":
+                                    continue
+                                s_ = 1 if same(lit[1], gb) else (-1 if same(lit[1], -gb) else 0)
+                                if s_ and (lit[2] if s_ * sigma > 0 else flip(lit[2])) == "le0":
+                                    h = True
+                            hit.append(h)
+                        if hit and all(hit):
+                            least = True
+                ctx.check(least, "order_stats('n'): a sample size returned without a root search is the least admissible one (n = r), or the residual one sample "
+                                 "below it was tested negative - otherwise a smaller n may already meet the confidence", q.node, None if least else repr(v))
         return rec, rooted
 
     rn = root_arm("n", N, "the sample size")
